@@ -55,6 +55,7 @@ type LemmaInfo struct {
 	Inlines []string // callees verified through their bodies ("*" = every callee)
 	SplitParam string
 	SplitLo, SplitHi int64
+	Driver bool // "mode: driver": procedures run over the ghost association, run-time panics end the run, callee preconditions assumed
 }
 
 func (p *Loaded) info(fn *ssa.Function) *FuncInfo {
@@ -193,6 +194,9 @@ func parseContracts(file string, pkgDir string) ([]*FuncSpec, error) {
 			cur.Driver = true
 		case "assumepre":
 			cur.AssumePre = true
+		case "given":
+			// a statement that establishes the initial state the case is about (e.g. the argument vector)
+			cur.Given = append(cur.Given, rest)
 		case "prop":
 			cur.Props = append(cur.Props, fields[1:]...)
 		case "requires", "ensures":
@@ -579,6 +583,9 @@ func genGhost(fset *token.FileSet, dir string, specs []*FuncSpec) ([]string, err
 				}
 			}
 		}
+		for _, g := range sp.Given {
+			fmt.Fprintf(&body, "\t%s\n", g)
+		}
 		for _, c := range sp.Requires {
 			fmt.Fprintf(&body, "\tvc.Requires(%q, %s)\n", c.Label, c.Expr)
 		}
@@ -665,7 +672,7 @@ func genGhost(fset *token.FileSet, dir string, specs []*FuncSpec) ([]string, err
 		}
 	}
 	// standard packages a contract may mention although the source file does not import them
-	for _, std := range []string{"net", "bytes", "strings"} {
+	for _, std := range []string{"net", "bytes", "strings", "os"} {
 		if _, have := imports[std]; !have && regexp.MustCompile(`(^|[^.\w])`+std+`\.[A-Z]`).MatchString(noStr) {
 			imports[std] = std
 			names = append(names, std)
@@ -904,6 +911,9 @@ func (p *Loaded) bindSpecs() {
 								li.SplitParam = fs[0]
 								fmt.Sscanf(fs[1], "%d..%d", &li.SplitLo, &li.SplitHi)
 							}
+						}
+						if strings.HasPrefix(t, "mode:") && strings.TrimSpace(strings.TrimPrefix(t, "mode:")) == "driver" {
+							li.Driver = true
 						}
 						if strings.HasPrefix(t, "maynil:") {
 							li.MayNil = append(li.MayNil, strings.Fields(strings.TrimPrefix(t, "maynil:"))...)
